@@ -90,7 +90,7 @@ fn conv_case(rt: &tokio::runtime::Runtime, dir: &Path, case: &Value, n: usize) -
 	ev["source_file"] = json!(src_file.as_ref().map(|p| p.extension().map(|e| e.to_string_lossy().to_string()).unwrap_or_default()).unwrap_or_default());
 	let mk_src = || -> Box<dyn TilesReaderTrait> {
 		match &src_file {
-			Some(p) => match catch(|| rt.block_on(get_reader(p.to_str().unwrap()))) {
+			Some(p) => match catch(|| retry_env(|| rt.block_on(get_reader(p.to_str().unwrap())))) {
 				Ok(Ok(r)) => r,
 				// (a real reader that cannot open a valid file is C16's matter, not C06's: this case then runs on the in-memory source)
 				_ => Box::new(src.mem_reader()),
@@ -171,7 +171,7 @@ fn conv_case(rt: &tokio::runtime::Runtime, dir: &Path, case: &Value, n: usize) -
 		let path = file_path(dir, fmt, "conv");
 		remove_path(&path);
 		let p = path.to_str().unwrap().to_string();
-		let r = catch(|| rt.block_on(convert_tiles_container(mk_src(), mk_cp(), &p)));
+		let r = catch(|| retry_env(|| rt.block_on(convert_tiles_container(mk_src(), mk_cp(), &p))));
 		if matches!(r, Ok(Ok(()))) {
 			let mut fsrc = source_of(&c);
 			fsrc.fmt = fmt.to_string();
@@ -302,7 +302,7 @@ fn recomp_case(rt: &tokio::runtime::Runtime, dir: &Path, case: &Value, n: usize)
 		m.tilejson.set_string("name", &format!("{meta_name} (an earlier export with a much longer name: {})", "x".repeat(200))).unwrap();
 		let _ = catch(|| rt.block_on(convert_tiles_container(Box::new(m), mk_cp(), &p)));
 	}
-	let r = catch(|| rt.block_on(convert_tiles_container(Box::new(mk_mem()), mk_cp(), &p)));
+	let r = catch(|| retry_env(|| rt.block_on(convert_tiles_container(Box::new(mk_mem()), mk_cp(), &p))));
 	if matches!(r, Ok(Ok(()))) {
 		ev["file"] = recomp_file(fmt, &path, &raw, meta_name);
 	} else {
